@@ -1031,7 +1031,7 @@ func propC18(r *Run, w *World) {
 			}
 			return norm(Term(v))
 		}
-		wantLen := "uint32((" + szc + " + len(p0.Data)))"
+		wantLen := "uint32((len(p0.Data) + " + szc + "))"
 		var mk *ssa.MakeSlice
 		nMk := 0
 		instrsOf(fn, func(in ssa.Instruction) {
